@@ -221,7 +221,7 @@ def strategy(tier):
 
 def budget(tier):
     if tier == 'quick':
-        return {'max_examples': 960, 'shards': 8, 'time_budget': 100}
+        return {'max_examples': 1920, 'shards': 16, 'time_budget': 100}
     return {'max_examples': 96000, 'shards': 16, 'time_budget': 1500}
 
 
